@@ -87,6 +87,11 @@ def closed_pool(leaves, small, depth2=True, arr_len=2, keys=('a', 'b')):
                 d1.append((f'{{{k2}:{lb},{k1}:{la}}}rev', {k2: b, k1: a}))
     pool.extend(d1)
     if depth2:
+        # a container at one index and a scalar at another (both orders): element-wise order must look at index 0 first
+        for lc, c in (('[0]', [0]), ('[1]', [1]), ('{a:0}', {'a': 0}), ('{a:1}', {'a': 1})):
+            for lsv, sv in (('0', 0), ('1', 1)):
+                pool.append((f'[{lc},{lsv}]', [c, sv]))
+                pool.append((f'[{lsv},{lc}]', [sv, c]))
         inner = [d1[0]] + [x for x in d1 if x[0] in (f'[{small[0][0]}]', f'[{small[-1][0]}]', '{}', f'{{{keys[0]}:{small[-1][0]}}}')]
         for la, a in inner:
             pool.append((f'[{la}]', [a]))
